@@ -26,7 +26,7 @@ var CallSites = []string{"zz_world_a_test.go", "zz_world_b_test.go", "zz_world_c
 var Pool = [][]string{
 	{"TestA", "TestAB", "TestA1", "Test1", "TestA_x"},
 	{"TestB", "TestB_x", "TestSub", "TestBA"},
-	{"TestC", "TestC10", "TestC2", "TestOther"},
+	{"TestC", "TestC10", "TestC2", "TestOther", "Test日付"},
 }
 
 // PoolFile returns the call-site index of a pool test or -1.
